@@ -455,7 +455,7 @@ PROPS["C10"] = dict(
              "programs_with_distinct_raw_hash_orders_observed", "process_runs"],
     assumptions=TRUST_BASE,
     stages=dict(
-        quick=[native("dbg", scale=9), custom("c10_processes", builds=["cli", "dbg"], n=48, reps=4)],
+        quick=[native("dbg", scale=5), custom("c10_processes", builds=["cli", "dbg"], n=48, reps=4)],
         thorough=[native("dbg", scale=1.5), native("rel", scale=1.5), custom("c10_processes", builds=["cli", "dbg"], n=400, reps=8)],
     ),
 )
